@@ -37,6 +37,7 @@ type Loop struct {
 	headerEnv *Env
 	rangeComp string // visited-set component if this is a map range loop
 	entryMem  *Mem
+	frame     []string // components with the implicit frame invariant (old objects unchanged since function entry)
 }
 
 type TV struct {
@@ -47,36 +48,37 @@ type TV struct {
 }
 
 type FnVC struct {
-	w        *World
-	e        *Enc
-	fn       *ssa.Function
-	ct       *FuncContract
-	cf       *ContractFile
-	name     string // short name
-	lines    []string
-	vals     map[ssa.Value]Term
-	tuples   map[ssa.Value][]Term
-	blockLit map[*ssa.BasicBlock]Term
-	memOut   map[*ssa.BasicBlock]*Mem
-	obls     []*Obligation
-	loops    []*Loop
-	loopOf   map[*ssa.BasicBlock]*Loop // header -> loop
-	counters map[string]int
-	mem0     *Mem
-	params   map[string]TV
-	ghostTy  map[string]types.Type
-	debug    map[*ssa.BasicBlock][]debugBind
-	private  map[*ssa.Alloc]string
-	closures map[ssa.Value]*ssa.MakeClosure
-	warnings []string
-	callOrd  map[string]int
-	defers   []*ssa.Defer
-	rangeMap map[*ssa.Range]string
-	retN     int
+	w           *World
+	e           *Enc
+	fn          *ssa.Function
+	ct          *FuncContract
+	cf          *ContractFile
+	name        string // short name
+	lines       []string
+	vals        map[ssa.Value]Term
+	tuples      map[ssa.Value][]Term
+	blockLit    map[*ssa.BasicBlock]Term
+	memOut      map[*ssa.BasicBlock]*Mem
+	obls        []*Obligation
+	loops       []*Loop
+	loopOf      map[*ssa.BasicBlock]*Loop // header -> loop
+	counters    map[string]int
+	mem0        *Mem
+	params      map[string]TV
+	ghostTy     map[string]types.Type
+	debug       map[*ssa.BasicBlock][]debugBind
+	private     map[*ssa.Alloc]string
+	closures    map[ssa.Value]*ssa.MakeClosure
+	warnings    []string
+	callOrd     map[string]int
+	defers      []*ssa.Defer
+	rangeMap    map[*ssa.Range]string
+	retN        int
+	retLits     []Term
 	trustedUsed map[string]bool
-	curBlock *ssa.BasicBlock
-	cur      *Mem
-	mode     string // "full" or "safety"
+	curBlock    *ssa.BasicBlock
+	cur         *Mem
+	mode        string // "full" or "safety"
 }
 
 type debugBind struct {
@@ -94,7 +96,8 @@ func (vc *FnVC) warn(f string, a ...interface{}) {
 
 func (vc *FnVC) define(name, sort string, t Term) Term {
 	n := sym(name)
-	vc.emit(fmt.Sprintf("(define-fun %s () %s %s)", n, sort, t))
+	// passive form: an atomic constant plus a defining equation (keeps E-matching terms small)
+	vc.emit(fmt.Sprintf("(declare-const %s %s)\n(assert (= %s %s))", n, sort, n, t))
 	return n
 }
 
@@ -530,6 +533,11 @@ func (vc *FnVC) translate() (err error) {
 			}
 		}
 	}
+	if vc.ct != nil && len(vc.retLits) > 0 {
+		// vacuity: some return must be reachable under the precondition and the assumed invariants
+		o := vc.oblige("cover", "cover.return", or(vc.retLits...), "true", fn.Pos(), "some return reachable under the precondition")
+		o.ExpectSat = true
+	}
 	return nil
 }
 
@@ -614,9 +622,7 @@ func (vc *FnVC) findPrivate() {
 				continue
 			}
 			t := a.Type().Underlying().(*types.Pointer).Elem()
-			if _, isArr := t.Underlying().(*types.Array); isArr {
-				continue // arrays live in the element heap (they get sliced)
-			}
+			// (arrays that get sliced escape and live in the element heap)
 			if !vc.escapes(a, map[ssa.Value]bool{}) {
 				name := fmt.Sprintf("L$%s", a.Name())
 				vc.e.comp(name, "(Array Int "+vc.e.sortOf(t)+")")
@@ -798,6 +804,35 @@ func (vc *FnVC) enterLoop(l *Loop, lit Term, entry *Mem) *Mem {
 		vc.vals[phi] = t
 		vc.assumeWF(t, phi.Type(), m)
 	}
+	// implicit frame invariant: components the contract does not allow to change keep the value of every
+	// object that existed at function entry (checked on entry and on every back edge like any invariant)
+	if vc.ct != nil && vc.ct.HasAssign && !all {
+		allowed, allowAll := vc.w.assignSet(vc.e, vc.fn.Pkg.Pkg, vc.ct)
+		if !allowAll {
+			for _, c := range sortedKeys(set) {
+				if c == nextComp || strings.HasPrefix(c, "G$") || strings.HasPrefix(c, "R$") || strings.HasPrefix(c, "L$") || allowed[c] {
+					continue
+				}
+				l.frame = append(l.frame, c)
+			}
+		}
+		for _, c := range l.frame {
+			var goals []Term
+			for _, p := range l.Header.Preds {
+				if vc.isBackEdge(p, l.Header) {
+					continue
+				}
+				if _, done := vc.blockLit[p]; !done {
+					continue
+				}
+				goals = append(goals, implies(vc.edgeLit(p, l.Header), vc.frameFact(c, vc.memOut[p])))
+			}
+			vc.oblige("loop", fmt.Sprintf("loop%d.frame[%s].init", l.Ordinal, c), "true", and(goals...), l.MinPos, "objects older than the call are unchanged in "+c)
+		}
+		for _, c := range l.frame {
+			vc.assume(lit, vc.frameFact(c, m))
+		}
+	}
 	env := vc.loopEnv(l, m, nil)
 	l.headerEnv = env
 	// entry obligations (invariant holds initially) and assumption at the header
@@ -932,6 +967,9 @@ func (vc *FnVC) backEdge(l *Loop, latch *ssa.BasicBlock) {
 		}
 		vc.oblige("loop", fmt.Sprintf("loop%d.inv%d.preserved%s", l.Ordinal, k+1, suffix), edge, tv.t, l.MinPos, inv.Text)
 	}
+	for _, c := range l.frame {
+		vc.oblige("loop", fmt.Sprintf("loop%d.frame[%s].preserved%s", l.Ordinal, c, suffix), edge, vc.frameFact(c, m), l.MinPos, "objects older than the call are unchanged in "+c)
+	}
 	if d := l.Contract.Decreases; d != nil {
 		before, err := l.headerEnv.tr(d.E)
 		if err != nil {
@@ -943,6 +981,15 @@ func (vc *FnVC) backEdge(l *Loop, latch *ssa.BasicBlock) {
 		}
 		vc.oblige("loop", fmt.Sprintf("loop%d.decreases%s", l.Ordinal, suffix), edge, and(app(">=", before.t, zeroLike(before)), app("<", after.t, before.t)), l.MinPos, d.Text)
 	}
+}
+
+// frameFact: every object that existed at function entry has its entry value in component c of state m.
+func (vc *FnVC) frameFact(c string, m *Mem) Term {
+	a, b := vc.mem0.get(c), m.get(c)
+	if a == b {
+		return "true"
+	}
+	return fmt.Sprintf("(forall ((r! Int)) (! (=> (and (<= 0 r!) (< r! %s)) (= (select %s r!) (select %s r!))) :pattern ((select %s r!))))", vc.mem0.get(nextComp), b, a, b)
 }
 
 func zeroLike(tv TV) Term {
